@@ -1,3 +1,5 @@
+#[cfg(feature = "flate2")]
+use std::io::BufRead;
 use std::io::{self, Read};
 
 #[cfg(feature = "flate2")]
@@ -74,16 +76,32 @@ impl CompressedReader {
     }
 }
 
+/// A decoder stops at the end of the compressed stream and does not look at what follows. Before
+/// the end of the body is reported the framing underneath is asked once more, so that a body whose
+/// frame was cut short (no final chunk, fewer bytes than announced) is still an error.
+#[cfg(feature = "flate2")]
+fn end_of_stream(inner: &mut BodyReader, buf: &[u8]) -> io::Result<usize> {
+    if !buf.is_empty() {
+        inner.fill_buf()?;
+    }
+    Ok(0)
+}
+
 impl Read for CompressedReader {
     #[inline]
     fn read(&mut self, buf: &mut [u8]) -> io::Result<usize> {
-        // TODO: gzip does not read until EOF, leaving some data in the buffer.
         match self {
             CompressedReader::Plain(s) => s.read(buf),
             #[cfg(feature = "flate2")]
-            CompressedReader::Deflate(s) => s.read(buf),
+            CompressedReader::Deflate(s) => match s.read(buf)? {
+                0 => end_of_stream(s.get_mut(), buf),
+                n => Ok(n),
+            },
             #[cfg(feature = "flate2")]
-            CompressedReader::Gzip(s) => s.read(buf),
+            CompressedReader::Gzip(s) => match s.read(buf)? {
+                0 => end_of_stream(s.get_mut(), buf),
+                n => Ok(n),
+            },
         }
     }
 }
